@@ -338,7 +338,8 @@ func eGenQuery(r *rand.Rand, cmds []database.Command) string {
 	case 2:
 		q = "how to " + q
 	case 3:
-		q = q + " without opening"
+		// the phrase together with a word that merely CONTAINS one of the viewing clues (see, view, show, display, read, look)
+		q = []string{"reading", "preview of", "looking at", "viewing", "displaying", "overview", "", "showing"}[len(q)%8] + " " + q + " without " + []string{"opening", "editing"}[len(q)/8%2]
 	}
 	return q
 }
